@@ -370,7 +370,7 @@ func (s *Setup) ReplaceUnderWrite(permille int) func(r *ReqRec) string {
 		}
 		w.Store.Delete(r.Res, r.NS, r.Name, DeleteOpts{}, "user")
 		n := Object{"apiVersion": cur["apiVersion"], "kind": cur["kind"],
-			"metadata": Object{"name": r.Name, "labels": Object{"app": "someone-else"}},
+			"metadata":               Object{"name": r.Name, "labels": Object{"app": "someone-else"}},
 			childContentField(r.Res): Object{"made-by": "somebody-else"}}
 		if _, e := w.Store.Create(r.Res, r.NS, n, "user"); e != nil {
 			return ""
